@@ -191,6 +191,12 @@ def patGuarantee : Bool → Bool → Bool → List Ev → Bool
 
 def handleC10 : Handler := fun comp a impl =>
   match comp, a with
+  | "hls.ends", [en, https] =>
+    -- `ended_on_dispose`: whenever a muxer was started for the input (HLS enabled over http or https), it is disposed with
+    -- the input and the live playlist carries the end marker
+    let on := en == "1" || https == "1"
+    let model := if on then "started=1 alive=0 endlist=1" else "started=0 alive=0 endlist=-"
+    some { model := model, verdict := if impl == model then "ok" else "bad:hls-output-not-finalised-when-the-input-ended" }
   | "hls.republish", [_mode] =>
     -- `cleanup_spares_live`: the cleanup task performs no operation while a muxer for the name exists
     some { model := "kept", verdict := if impl == "kept" then "ok" else "bad:cleanup-removed-the-directory-of-a-live-publish" }
